@@ -2,6 +2,8 @@ use std::{error::Error, fmt};
 
 mod client;
 mod server;
+#[cfg(feature = "verif")]
+pub mod verif_net;
 
 pub use client::*;
 pub use server::*;
